@@ -214,6 +214,7 @@ Definition ro_or_l (a b : term) : option term :=
 
 Definition s_or (a b : term) : term :=
   if is_c a 0 then b
+  else if is_c a (W - 1) then TConst (W - 1)
   else if term_eqb a b then a
   else if is_not_of b a || is_not_of a b then TConst (W - 1)
   else match first_some [ro_and_r a b; ro_and_l a b; ro_or_r a b; ro_or_l a b] with
